@@ -629,6 +629,53 @@ def rule_r14(prog, res):
     res.floor('R14', 'message writes in XmlDocument.serialize', k, 2)
 
 
+def rule_r15(prog, res):
+    res.rule('R15', 'what Soap12 inherits from Soap11 names envelope elements '
+             'through self.ns_soap_env, never through a version constant')
+    s11 = prog.cls('spyne.protocol.soap.soap11:Soap11')
+    s12 = prog.cls('spyne.protocol.soap.soap12:Soap12')
+    n = k = 0
+    for nm, f in s11.methods.items():
+        if f.cls is not s11 or nm in s12.methods and \
+                s12.methods[nm].cls is s12:
+            continue            # overridden by Soap12: not shared code
+        n += 1
+        for x in walk_no_defs(f.node):
+            t = None
+            if isinstance(x, ast.Attribute) and ('SOAP11_ENV' in x.attr or
+                                                 'SOAP12_ENV' in x.attr):
+                t = unparse(x)
+            elif isinstance(x, ast.Name) and ('SOAP11_ENV' in x.id or
+                                              'SOAP12_ENV' in x.id):
+                t = x.id
+            if t is None:
+                continue
+            k += 1
+            where = '%s:%d' % (f.module.relpath, x.lineno)
+            res.ob('R15', where, '%s refers to %s' % (f.qualname, t),
+                   'VIOLATED')
+            res.finding('R15', '%s|version-constant|%s' % (f.qualname, t),
+                        where, '%s, which Soap12 inherits, builds a name from '
+                        '%s: a SOAP 1.2 envelope gets an element of the SOAP '
+                        '1.1 namespace (e.g. the Header next to a 1.2 Body), '
+                        'which no SOAP 1.2 reader finds' % (f.qualname, t))
+    uses = sum(1 for f in s11.methods.values() if f.cls is s11
+               for x in walk_no_defs(f.node)
+               if isinstance(x, ast.Attribute) and x.attr == 'ns_soap_env')
+    res.ob('R15', s11.where, 'Soap11 methods shared with Soap12: %d, '
+           'self.ns_soap_env uses: %d, version constants: %d' % (n, uses, k),
+           'ok')
+    res.floor('R15', 'self.ns_soap_env uses in Soap11', uses, 5)
+
+
+def rule_r16(prog, res):
+    from . import c07
+    from ..report import Result
+    res.share('R16', 'arrays published under one type name have one item '
+              'name: what is written is what the schema says (C07-R18)',
+              'C07', c07.rule_r18, prog, Result)
+
+
 def run(prog, res, tier):
     res.run_rule(rule_shared2, prog, res)
     res.run_rule(rule_r1, prog, res)
@@ -642,6 +689,8 @@ def run(prog, res, tier):
     res.run_rule(rule_r12, prog, res)
     res.run_rule(rule_r13, prog, res)
     res.run_rule(rule_r14, prog, res)
+    res.run_rule(rule_r15, prog, res)
+    res.run_rule(rule_r16, prog, res)
 
 
 _X = 'spyne/protocol/xml.py'
@@ -649,6 +698,12 @@ _S = 'spyne/protocol/soap/soap11.py'
 _A = 'spyne/application.py'
 
 MUTANTS = [
+    Mutant('soap-header-version-constant', 'R15', 'fire',
+           'spyne/protocol/soap/soap11.py',
+           in_func('Soap11.serialize',
+                   "ctx.out_document, '{%s}Header' % self.ns_soap_env)",
+                   "ctx.out_document, ns.SOAP11_ENV('Header'))"),
+           'version-constant'),
     Mutant('xmldata-bytes-as-text', 'R14', 'fire', 'spyne/model/complex.py',
            in_func('XmlData.marshall',
                    "parent_elt.text = prot.to_unicode(cls.type, value)",
